@@ -12,6 +12,8 @@ the 异常 constructor, 显示, display, copy, equality); everything else is `un
 import ZnVerif.Ops.Run
 import ZnVerif.Generated.Members
 import ZnVerif.Model.Validate
+import ZnVerif.Ops.VarInputText
+import ZnVerif.Ops.HttpValues
 
 namespace ZnVerif.Ops.C10
 open ZnVerif ZnVerif.Ops ZnVerif.Model ZnVerif.Ops.Run
@@ -107,6 +109,15 @@ partial def parseSpec (self : Option Addr) (s : String) : M Float Addr := do
       let c ← mkUserClass
       construct 50 c []
     else if s == "fn" then alloc (.fn (.user none))
+    -- the value classes of pkg/common (Model/HttpValues.lean)
+    else if s == "reqcls" then Model.HttpValues.mkRequestClass
+    else if s == "respcls" then Model.HttpValues.mkResponseClass
+    else if s == "req" then do
+      let c ← Model.HttpValues.mkRequestClass
+      Model.HttpValues.newObject 50 c
+    else if s == "resp" then do
+      let c ← Model.HttpValues.mkResponseClass
+      Model.HttpValues.newObject 50 c
     else notModelled
 
 def fuel : Nat := 200
@@ -180,7 +191,9 @@ def runValidate (kind member : String) (argSpecs : List String) : String :=
 
 def runValue (recvSpec kind member : String) (argSpecs : List String) : String :=
   if kind == "vlp" || kind == "vep" || kind == "vap" then runValidate kind member argSpecs else
-  if kind == "vi" || kind == "ei" then "unmodelled" else
+  -- input-variable texts: Model/VarInput.lean (the parser model on the text, then the evaluator model in an empty VM)
+  if kind == "vi" then VarInputText.runVI member false else
+  if kind == "ei" then VarInputText.runEI [("甲", member)] false else
   match hexToString? member with
   | none => "unmodelled"
   | some name =>
@@ -208,9 +221,12 @@ def runValue (recvSpec kind member : String) (argSpecs : List String) : String :
     | "c", _ =>
       fin (do match ← getCell recv with
               | .cls _ ctor _ _ =>
-                match ctor with
-                | .user _ _ => notModelled
-                | _ => construct fuel recv args
+                match ← Ops.HttpValues.constructByName recv args with
+                | some r => pure r
+                | none =>
+                  match ctor with
+                  | .user _ _ => notModelled
+                  | _ => construct fuel recv args
               | .num _ => do
                 validateExact args ["number"]
                 match args with
@@ -245,6 +261,8 @@ def handle (op : String) (args : List String) : Option String :=
   match op, args with
   | "value", recv :: kind :: member :: rest => some (runValue recv kind member rest)
   | "value", _ => some "bad-case"
+  | "httpval", kind :: rest =>
+    if kind == "req" || kind == "resp" then some (Ops.HttpValues.run (parseSpec none) kind rest) else some "bad-case"
   | "members", _ => some membersLine
   | _, _ => none
 
